@@ -100,6 +100,9 @@ def run(ctx):
         jobs.append((m, [], []))
         jobs.append((m, others, []))
         jobs.append((m, [], others))
+        # another module imported WHILE m is being imported (see the worker): one partner in the quick tier, four in the thorough
+        for k in rng.sample(others, ctx.budget(1, 4)):
+            jobs.append((m, ["@" + k], []))
         if not ctx.quick:
             for k in others:
                 jobs.append((m, [k], []))
